@@ -83,15 +83,39 @@ package stateless
 //@   modifies heap(optracker.OperationTracker), heap(optracker.Operation), heap(api.Pin), cancelledOps
 
 // "After a recover round ... the re-issued pin using the options recorded in the shared pinset"
+// recoverOffered: the status records handed to recoverWithPinInfo so far (call-history ghost)
+//@ ghost var recoverOffered set[*api.PinInfo]
 //@ func (spt *Tracker) recoverWithPinInfo
 //@   property C05
+//@   records recoverOffered = union(recoverOffered, setof(pi))
 //@   requires tableInv(spt.optracker) && pi != nil
+//@   ensures [table-invariant] tableInv(spt.optracker)
 //@   ensures [unpin-error-retries-unpin] old(pi.Status) == api.TrackerStatusUnpinError && spt.optracker.operations[old(pi.Cid)] != old(spt.optracker.operations[pi.Cid]) ==> spt.optracker.operations[old(pi.Cid)].opType == optracker.OperationUnpin
 //@   ensures [pin-error-retries-pin] (old(pi.Status) == api.TrackerStatusPinError || old(pi.Status) == api.TrackerStatusUnexpectedlyUnpinned) && spt.optracker.operations[old(pi.Cid)] != old(spt.optracker.operations[pi.Cid]) ==> spt.optracker.operations[old(pi.Cid)].opType == optracker.OperationPin
 //@   ensures [recorded-options] (old(pi.Status) == api.TrackerStatusPinError || old(pi.Status) == api.TrackerStatusUnexpectedlyUnpinned) && spt.optracker.operations[old(pi.Cid)] != old(spt.optracker.operations[pi.Cid]) && stErr == nil && getErr == nil ==> haskey(pinset, old(pi.Cid)) && *(spt.optracker.operations[old(pi.Cid)].pin) == pinset[old(pi.Cid)]
 //@   ensures [state-consulted] (old(pi.Status) == api.TrackerStatusPinError || old(pi.Status) == api.TrackerStatusUnexpectedlyUnpinned) && haskey(pinset, old(pi.Cid)) && stErr == nil ==> getErr == nil || getErr != state.ErrNotFound
 //@   ensures [other-status-untouched] old(pi.Status) != api.TrackerStatusPinError && old(pi.Status) != api.TrackerStatusUnexpectedlyUnpinned && old(pi.Status) != api.TrackerStatusUnpinError ==> spt.optracker.operations == old(spt.optracker.operations)
 //@   modifies heap(optracker.OperationTracker), heap(optracker.Operation), heap(api.Pin), heap(api.PinInfo), heap(api.IPFSPinStatus), rpcN, rpcLastSvc, rpcLastMethod, cancelledOps
+
+// Recover(c): what is recovered is the asked CID, judged by the status of its current operation if it has one
+//@ func (spt *Tracker) Recover
+//@   property C05
+//@   requires tableInv(spt.optracker)
+//@   at_call Tracker.recoverWithPinInfo assert [recovers-the-asked-cid] arg_pi != nil && arg_pi.Cid == c
+//@   at_call Tracker.recoverWithPinInfo assert [operation-status-wins] haskey(spt.optracker.operations, c) ==> arg_pi.Status == opStatus(spt.optracker.operations[c].opType, spt.optracker.operations[c].phase)
+//@   modifies heap(optracker.OperationTracker), heap(optracker.Operation), heap(api.Pin), heap(api.PinInfo), heap(api.IPFSPinStatus), rpcN, rpcLastSvc, rpcLastMethod, cancelledOps, recoverOffered
+
+// "After a recover round ... for every CID": every status record of the round is offered for recovery, and a
+// failure to queue one is reported, not dropped
+//@ func (spt *Tracker) RecoverAll
+//@   property C05
+//@   requires tableInv(spt.optracker)
+//@   ensures [every-status-offered] err == nil ==> forall j int :: 0 <= j && j < len(statuses) ==> in(statuses[j], recoverOffered)
+//@   ensures [one-report-each] err == nil ==> len(res) == len(statuses)
+//@   loop 1 (range statuses)
+//@     invariant tableInv(spt.optracker) && len(resp) == idx1
+//@     invariant forall j int :: 0 <= j && j < idx1 ==> in(statuses[j], recoverOffered)
+//@   modifies heap(optracker.OperationTracker), heap(optracker.Operation), heap(api.Pin), heap(api.PinInfo), heap(api.IPFSPinStatus), rpcN, rpcLastSvc, rpcLastMethod, cancelledOps, recoverOffered
 
 // ---- C06: the per-CID status ----
 //@ spec opaque func remoteFor(p api.Pin, pid peer.ID) bool = !(p.ReplicationFactorMin == -1 && p.ReplicationFactorMax == -1) && !in(pid, elems(p.Allocations))
@@ -105,6 +129,7 @@ package stateless
 // and depth decide which kind of IPFS pin counts), not about a default pin of the same CID
 //@   at_call rpc.Client.CallContext assert [asks-ipfs-about-the-recorded-pin] svcName == "IPFSConnector" && svcMethod == "PinLsCid" && args == any(gpin) && gpin != nil && *gpin == pinset[c]
 //@   ensures res != nil
+//@   ensures [reports-the-asked-cid] res.Cid == c && (!haskey(spt.optracker.operations, c) ==> res.Peer == spt.peerID)
 //@   ensures [pending-or-failed-operation] haskey(spt.optracker.operations, c) ==> res.Status == opStatus(spt.optracker.operations[c].opType, spt.optracker.operations[c].phase)
 //@   ensures [unpinned-only-if-absent] !haskey(spt.optracker.operations, c) && res.Status == api.TrackerStatusUnpinned ==> !haskey(pinset, c)
 //@   ensures [absent-is-unpinned] !haskey(spt.optracker.operations, c) && !haskey(pinset, c) ==> res.Status == api.TrackerStatusUnpinned || res.Status == api.TrackerStatusClusterError
